@@ -32,6 +32,8 @@ pub struct Draws { pub rearmed: Ghost<bool> }
                  (r"^for \(reg, infos\) in regs\.iter_mut\(\)\.zip\(player_infosets\.iter_mut\(\)\) \{ \*reg = infos\.iter_mut\(\)\.map\(\|info\| info\.advance\(it, params\)\)\.sum\(\); \}$", ("abstract", "")),
                  (r"^let \[reg_one, reg_two\] = regs;$", ("abstract", "")),
                  (r"^if .* \{ break; \}$", ("abstract_break", "if __abs_stop() { break; }")),
+                 # a workspace statement made conditional: the condition is an arbitrary boolean here
+                 (r"^if [^{]* \{ (queue|work|payoffs)\.clear\(\); \}$", ("abstract", "if __abs_stop() { \\1.clear(); }"), "optional"),
              ]},
              loops={0: dict(kind="for", head="""invariant
     queue@.len() == 0, work@.len() == 0, map_len(&payoffs) == 0, // @ob C06.V.solve_generic_multi.workspace_fresh""",
